@@ -26,6 +26,9 @@ BOUNDS = {"e2e": "<=3 methods; call shapes (p), (p,p), (p,k); thorough adds 3 me
 
 def tasks(tier):
     t = _tm.mro_unbounded_tasks() + _tm.resolve_unbounded_tasks() + _tm.candidate_tasks() + _tm.sort_types_tasks() + _tm.typemap_tasks() + _tm.mtm_missing_tasks(("plain",)) + _tm.resolve_tasks(tier)
+    from . import _core as _c0
+
+    t += _c0.signature_tasks()
     t += _tm.e2e_tasks(["complete", "sound_single_position", "sound_chain", "sound_unrestricted", "tiebreak_scope"], tier)
     # "more specific" on plain classes is the subclass relation, with mutual subclasses (structurally identical protocols /
     # ABCs) tied: the class fragment of typeorder (shared with C12)
